@@ -204,6 +204,13 @@ fn main() {
             println!("{ok}/{runs} ok in {:?}", start.elapsed());
             harness::remove_scratch_dir();
         }
+        "synth-empty" => {
+            // simcheck synth-empty <version> <data-blocks> <path>: an empty legacy device image
+            let version: u32 = args[2].parse().unwrap();
+            let blocks: usize = args[3].parse().unwrap();
+            let image = codec::empty_image(version, (16 + blocks) * codec::BLOCK, 1_750_000_000);
+            std::fs::write(&args[4], image).unwrap();
+        }
         "determinism" => {
             if args.len() < 4 {
                 usage();
